@@ -174,6 +174,18 @@ theorem crateHist_apiOp (ops : FOps) (s : Schema2) (L : Lib2) (hist : List Call)
     | none => rfl
     | some op => simp [crateOpOf_apiOp ops s L c ha.1 op hc]
 
+theorem crateHist_append (ops : FOps) (s : Schema2) (L : Lib2) (a b : List Call) :
+    crateHist ops s L (a ++ b) = crateHist ops s L a ++ crateHist ops s (run ops s L a) b := by
+  induction a generalizing L with
+  | nil => rfl
+  | cons c cs ih =>
+    simp only [List.cons_append, crateHist, List.append_assoc]
+    rw [ih]; rfl
+
+theorem run_append (ops : FOps) (s : Schema2) (L : Lib2) (a b : List Call) :
+    run ops s L (a ++ b) = run ops s (run ops s L a) b := by
+  unfold run; rw [List.foldl_append]
+
 /-! ### track side -/
 
 theorem trackCall_tdb (ops : FOps) (s : Schema2) (op : TOp) (L : Lib2) :
